@@ -2,9 +2,9 @@
 package main
 
 import (
-	"errors"
 	"fmt"
 	"math/rand"
+	"regexp"
 	"runtime"
 	"strings"
 	"sync"
@@ -123,7 +123,7 @@ func renderTrace(r *rec.Rec) []string {
 			if strings.Contains(e.ErrS, "single subscriber") {
 				out = append(out, "E(concurrent)")
 			} else {
-				out = append(out, "E")
+				out = append(out, "E"+errTag(e.ErrS))
 			}
 		default:
 			out = append(out, "C")
@@ -132,7 +132,21 @@ func renderTrace(r *rec.Rec) []string {
 	return out
 }
 
+// Every Error call of a check carries an error of its own ("e<k>"), so that a trace tells which of several
+// Error calls terminated the subject; errTag is that name as it shows in a delivered error.
+func errTag(msg string) string {
+	if m := errTagRe.FindString(msg); m != "" {
+		return m
+	}
+	return ""
+}
+
+var errTagRe = regexp.MustCompile(`\be\d+\b`)
+
+func taggedErr(k int) error { return fmt.Errorf("e%d: %w", k, src.ErrSrc) }
+
 type live struct {
+	errs int
 	subj ro.Subject[int]
 	recs []*rec.Rec
 	subs []ro.Subscription
@@ -145,7 +159,8 @@ func (l *live) apply(op string) {
 		l.next++
 		l.subj.Next(l.next)
 	case op == "E":
-		l.subj.Error(src.ErrSrc)
+		l.errs++
+		l.subj.Error(taggedErr(l.errs))
 	case op == "C":
 		l.subj.Complete()
 	case op == "S":
@@ -175,13 +190,14 @@ func (l *live) apply(op string) {
 	}
 }
 
-func applyModel(m *sm.State, op string, next *int, nsubs *int) {
+func applyModel(m *sm.State, op string, next *int, nsubs *int, errs *int) {
 	switch {
 	case op == "N":
 		*next++
 		m.Next(*next)
 	case op == "E":
-		m.Error()
+		*errs++
+		m.Error(fmt.Sprintf("e%d", *errs))
 	case op == "C":
 		m.Complete()
 	case op == "S":
@@ -209,7 +225,7 @@ func runSeq(c driver.Case) driver.Result {
 		// execute the whole sequence on a fresh subject, comparing after each operation
 		l := &live{subj: newSubject(cfg)}
 		m := sm.New(cfg.kind, cfg.n, 0)
-		next, nsubs := 0, 0
+		next, nsubs, errs := 0, 0, 0
 		for step, op := range seq {
 			if (op == "S" || op == "X") && nsubs >= 3 {
 				return nil
@@ -222,7 +238,7 @@ func runSeq(c driver.Case) driver.Result {
 			if pan != nil {
 				return &driver.Result{Verdict: driver.Violated, Key: "C10/" + string(cfg.kind) + "/panic", Msg: fmt.Sprintf("%s: operation #%d of [%s] panicked: %v", cfg, step, strings.Join(seq, " "), pan)}
 			}
-			applyModel(m, op, &next, &nsubs)
+			applyModel(m, op, &next, &nsubs, &errs)
 			for i, r := range l.recs {
 				got, want := strings.Join(renderTrace(r), " "), strings.Join(m.Subs[i].Trace, " ")
 				res.Events++
@@ -378,7 +394,7 @@ func modelTol(cfg config, dropBacklog bool, tol map[int]tolerance) porcupine.Mod
 			case "N":
 				s.Next(in.V)
 			case "E":
-				s.Error()
+				s.Error(fmt.Sprintf("e%d", in.V))
 			case "C":
 				s.Complete()
 			case "S":
@@ -458,7 +474,8 @@ func runConc(c driver.Case) driver.Result {
 				if rng.Intn(2) == 0 {
 					plans[cl] = append(plans[cl], opIn{Op: "C"})
 				} else {
-					plans[cl] = append(plans[cl], opIn{Op: "E"})
+					val++
+					plans[cl] = append(plans[cl], opIn{Op: "E", V: cl*1000 + val})
 				}
 			}
 		}
@@ -482,7 +499,7 @@ func runConc(c driver.Case) driver.Result {
 				case "N":
 					subj.Next(in.V)
 				case "E":
-					subj.Error(src.ErrSrc)
+					subj.Error(taggedErr(in.V))
 				case "C":
 					subj.Complete()
 				case "S":
@@ -638,7 +655,8 @@ func runSpin(c driver.Case) driver.Result {
 					case "C":
 						j.subj.Complete()
 					case "E":
-						j.subj.Error(src.ErrSrc)
+						in.V = 100 + g
+						j.subj.Error(taggedErr(in.V))
 					}
 				}()
 				j.ops[g] = porcupine.Operation{ClientId: 1 + g, Input: in, Output: opOut{}, Call: t0, Return: rec.Mono()}
@@ -732,7 +750,7 @@ func runPark(c driver.Case) driver.Result {
 	case "complete":
 		point, in, publish = "subscriber.terminal.unlocked", opIn{Op: "C"}, func() { subj.Complete() }
 	case "error":
-		point, in, publish = "subscriber.terminal.unlocked", opIn{Op: "E"}, func() { subj.Error(errors.New("boom")) }
+		point, in, publish = "subscriber.terminal.unlocked", opIn{Op: "E", V: 7}, func() { subj.Error(taggedErr(7)) }
 	}
 	nth := 2 // Next: the second subscriber is about to be called
 	if what != "next" {
